@@ -700,8 +700,10 @@ class Dosym(_Symlink):
 
     def run(self, args):
         target = args.target
+        # the link is created in the image: that is where an existing directory counts
+        image_target = pjoin(self.op.ED, target.lstrip(os.path.sep))
         if target.endswith(os.path.sep) or (
-            os.path.isdir(target) and not os.path.islink(target)
+            os.path.isdir(image_target) and not os.path.islink(image_target)
         ):
             # bug 379899
             raise IpcCommandError(f"missing filename target: {target!r}")
